@@ -21,6 +21,9 @@ CHECKS = {
  "C20": dict(level="exploration", design="5/C20", technique="deterministic simulation: source tasks and a controller on a hand-written executor whose poll order is the seeded schedule (every interleaving of trigger / create / wait / handle drop / barrier drop is a scenario), reference registry of live barriers in creation order as oracle, progress of every source compared after every poll; plus the synchronous trigger path from turmoil-fs's corruption hook inside a real Sim",
    text="Seeded exploration of schedules; because the executor is ours, each poll is a step of the reference model and any lost, duplicated, misrouted trigger or wrong suspension is detected at the poll where it happens.",
    note="Trusted: the reference registry in props/c20.rs and the 40-line executor. trigger_noop is never aimed at a Suspend barrier (documented misuse panic)."),
+ "C01": dict(level="exploration", design="5/C01", technique="deterministic simulation with fault injection, used as a determinism test of the simulator itself: seeded multi-host workloads (TCP/UDP, select/spawn/timeouts, fs std+tokio shims, io_uring) under every fault knob and controller script are executed twice per thread, on 16 different threads, and in two fresh OS processes; complete traces (program observations + turmoil's own Send/Delivered/Recv/Drop/Hold events + clocks) compared by digest, first differing event reported",
+   text="Seeded exploration over configurations, program mixes and controller scripts; every scenario's full trace must be bit-identical across executions in one thread, and a batch across fresh processes.",
+   note="Trusted: the harness programs are deterministic by construction; the tracing capture is one process-wide subscriber writing to thread-local buffers. A divergence is itself nondeterministic, so a reported violation may need load (parallel runs) to recur; the replay file records the observed first differing event. Two defects found and repaired (C01-F1 read_dir order, C01-F2 real clock leaking into fs/io_uring time)."),
 }
 def main():
     hooks = subprocess.run(["git","-C","/repo","log","--format=%h","--grep=^chore(verif)"],capture_output=True,text=True).stdout.split()
